@@ -43,6 +43,22 @@ fn case(kind: &str, m: usize, hist: &[u64], b: &[u64]) -> Option<(String, String
             if u.get_signature() != f.get_signature() || u.get_low_sketch() != f.get_low_sketch() || u.get_nb_overflow() != f.get_nb_overflow() {
                 return Some((format!("{:?} low {}", u.get_signature(), u.get_low_sketch()), format!("{:?} low {}", f.get_signature(), f.get_low_sketch())));
             }
+            // history made of merges only (and merges followed by sketching)
+            for also_sketch in [false, true] {
+                let mut other = crate::setsketcher::SetSketcher::<u16, u64, FnvHasher>::new(p, bh());
+                for x in hist { other.sketch(x).unwrap(); }
+                let mut u = crate::setsketcher::SetSketcher::<u16, u64, FnvHasher>::new(p, bh());
+                u.merge(&other).unwrap();
+                if also_sketch { for x in hist { u.sketch(&(x + 77)).unwrap(); } }
+                u.reinit();
+                if u.get_signature().iter().any(|&r| r != 0) && !hist.is_empty() {
+                    return Some((format!("after merge-only history and reinit the registers are {:?}", &u.get_signature()[..u.get_signature().len().min(8)]), "all zero, as in a new sketcher".into()));
+                }
+                for x in b { u.sketch(x).unwrap(); }
+                if u.get_signature() != f.get_signature() || u.get_nb_overflow() != f.get_nb_overflow() {
+                    return Some((format!("after a history of merges, reinit, then the input: {:?}", &u.get_signature()[..u.get_signature().len().min(8)]), format!("{:?}", &f.get_signature()[..f.get_signature().len().min(8)])));
+                }
+            }
         }
         "optdens" | "revoptdens" => {
             macro_rules! go { ($T:ident) => {{
